@@ -27,7 +27,6 @@ import (
 	nullmetrics "github.com/attestantio/vouch/services/metrics/null"
 	"github.com/holiman/uint256"
 	"github.com/prysmaticlabs/go-bitfield"
-	"github.com/rs/zerolog"
 	e2wtypes "github.com/wealdtech/go-eth2-wallet-types/v2"
 )
 
@@ -36,9 +35,17 @@ import (
 type c05Graffiti struct {
 	fail bool
 	data []byte
+	slow bool // the source takes three (virtual) seconds to answer, or gives up when its context ends
 }
 
-func (h *c05Graffiti) Graffiti(_ context.Context, _ phase0.Slot, _ phase0.ValidatorIndex) ([]byte, error) {
+func (h *c05Graffiti) Graffiti(ctx context.Context, _ phase0.Slot, _ phase0.ValidatorIndex) ([]byte, error) {
+	if h.slow {
+		select {
+		case <-ctx.Done():
+			return nil, ctx.Err()
+		case <-time.After(3 * time.Second):
+		}
+	}
 	if h.fail {
 		return nil, errors.New("mock graffiti failure")
 	}
@@ -101,12 +108,18 @@ func (a *c05Auctioneer) AuctionBlock(_ context.Context, slot phase0.Slot, _ phas
 
 type c05Proposals struct {
 	fail     bool
+	refused  int
 	proposal *api.VersionedProposal
 	opts     []*api.ProposalOpts
 }
 
-func (p *c05Proposals) Proposal(_ context.Context, opts *api.ProposalOpts) (*api.Response[*api.VersionedProposal], error) {
+func (p *c05Proposals) Proposal(ctx context.Context, opts *api.ProposalOpts) (*api.Response[*api.VersionedProposal], error) {
 	p.opts = append(p.opts, opts)
+	// like a real HTTP client the node refuses a request whose context has already ended
+	if ctx.Err() != nil {
+		p.refused++
+		return nil, ctx.Err()
+	}
 	if p.fail {
 		return nil, errors.New("mock proposal failure")
 	}
@@ -157,7 +170,10 @@ type c05Submitter struct {
 	calls []*api.VersionedSignedProposal
 }
 
-func (s *c05Submitter) SubmitProposal(_ context.Context, p *api.VersionedSignedProposal) error {
+func (s *c05Submitter) SubmitProposal(ctx context.Context, p *api.VersionedSignedProposal) error {
+	if ctx.Err() != nil {
+		return ctx.Err()
+	}
 	s.calls = append(s.calls, p)
 	if s.fail {
 		return errors.New("mock submit failure")
@@ -235,7 +251,7 @@ func (c05BlobSigner) SignBlobSidecar(_ context.Context, _ e2wtypes.Account, _ ph
 
 // c05New builds the service through its constructor.
 func c05New(params ...Parameter) *Service {
-	s, err := New(context.Background(), append([]Parameter{WithLogLevel(zerolog.Disabled), WithMonitor(&nullmetrics.Service{})}, params...)...)
+	s, err := New(context.Background(), append([]Parameter{WithLogLevel(vnd.LogLevel()), WithMonitor(&nullmetrics.Service{})}, params...)...)
 	vnd.Assert(err == nil && s != nil, "C05.new.accepted")
 	return s
 }
@@ -393,6 +409,10 @@ func c05Run(e *c05Env) {
 		e.graf = &c05Graffiti{data: []byte("{{CLIENT}} x")}
 		e.client = &c05ProposalsWithClient{c05Proposals: e.props, fail: graffitiMode == 4}
 	}
+	if e.graf != nil && (graffitiMode == 1 || graffitiMode == 2) {
+		// a slow graffiti source delays the proposal, it never costs it (the job's own deadline is 30 s)
+		e.graf.slow = vnd.Bool("graffiti.source-is-slow")
+	}
 	e.build()
 	// the job context: Propose is given a deadline so that the run ends even
 	// when no relay ever answers (that hang is C20's subject)
@@ -410,7 +430,7 @@ func c05Run(e *c05Env) {
 			vnd.Assert(o.Graffiti == [32]byte{}, "C05.graffiti-failure-degrades-to-empty-graffiti")
 			vnd.Cover("C05.graffiti-failed")
 		}
-		if graffitiMode == 2 {
+		if graffitiMode == 2 && !e.graf.slow { // (a slow source may be given up on: then the block is ungraffitied)
 			vnd.Assert(o.Graffiti[0] == 'h' && o.Graffiti[4] == 'o' && o.Graffiti[5] == 0, "C05.graffiti-passed-on")
 		}
 		if graffitiMode == 3 {
@@ -424,6 +444,7 @@ func c05Run(e *c05Env) {
 		vnd.Assert(len(e.props.opts) == 0 && len(e.signer.calls) == 0 && len(e.sub.calls) == 0, "C05.no-reveal-no-proposal")
 		return
 	}
+	vnd.Assert(e.props.refused == 0, "C05.proposal-requested-while-the-jobs-context-is-live")
 	if e.props.fail {
 		vnd.Assert(len(e.signer.calls) == 0 && len(e.sub.calls) == 0, "C05.no-proposal-nothing-signed")
 		return
